@@ -522,8 +522,16 @@ def load_function(key: str):
     fn, kind = unwrap_callable(obj)
     src = inspect.getsource(fn)
     src = textwrap.dedent(src)
-    tree = ast.parse(src)
-    node = tree.body[0]
+    shift = 0
+    try:
+        tree = ast.parse(src)
+        node = tree.body[0]
+    except IndentationError:
+        # a method whose body contains a multi-line string with unindented lines cannot be dedented: parse it in place, under a
+        # dummy block (one extra line above: compensated below)
+        tree = ast.parse("if 1:\n" + src)
+        node = tree.body[0].body[0]
+        shift = 1
     if not isinstance(node, (ast.FunctionDef, ast.AsyncFunctionDef)):
         raise Unsupported(f"{key}: not a function")
     # cross-check against the file on disk that the import system resolved
@@ -536,8 +544,10 @@ def load_function(key: str):
     sha = hashlib.sha256(src.encode()).hexdigest()
     from .dsl import REGIONS
     if key in REGIONS:
+        if shift:
+            raise Unsupported(f"{key}: region of a function whose source cannot be dedented")
         node = extract_region(key, node, src, REGIONS[key])
-    ast.increment_lineno(node, start - 1)
+    ast.increment_lineno(node, start - 1 - shift)
     res = (node, fn, kind, sha, fname, owner)
     _src_cache[key] = res
     return res
